@@ -69,6 +69,9 @@ pub(crate) struct Scheduler {
     block_init: Vec<(Coord, BlockInitFn)>,
     /// The network topology that keeps track of all the connections inside the execution graph.
     network: NetworkTopology,
+    /// The replication requirement of every scheduled block (verification hook).
+    #[cfg(feature = "verif")]
+    verif_replication: HashMap<BlockId, Replication>,
 }
 
 impl Scheduler {
@@ -80,6 +83,8 @@ impl Scheduler {
             block_init: Default::default(),
             network: NetworkTopology::new(config.clone()),
             config,
+            #[cfg(feature = "verif")]
+            verif_replication: Default::default(),
         }
     }
 
@@ -94,6 +99,9 @@ impl Scheduler {
         OperatorChain::Out: Send,
     {
         let block_id = block.id;
+        #[cfg(feature = "verif")]
+        self.verif_replication
+            .insert(block_id, block.scheduling.replication);
         let info = self.block_info(&block);
         debug!(
             "schedule block (b{:02}): {}",
@@ -450,6 +458,45 @@ impl Scheduler {
             global_ids,
             batch_mode: block.batch_mode,
             is_only_one_strategy: block.is_only_one_strategy,
+        }
+    }
+}
+
+#[cfg(feature = "verif")]
+impl Scheduler {
+    /// Build the execution graph and the socket assignment exactly as `build_all` does, without
+    /// spawning any worker, and return them (verification hook).
+    pub(crate) fn verif_dump(mut self) -> crate::verif::GraphDump {
+        self.build_execution_graph();
+        self.network.build();
+        let mut blocks = vec![];
+        for (id, info) in self.block_info.iter() {
+            let mut replicas: Vec<_> = info
+                .global_ids
+                .iter()
+                .map(|(c, g)| ((c.block_id, c.host_id, c.replica_id), *g))
+                .collect();
+            replicas.sort();
+            blocks.push(crate::verif::BlockDump {
+                id: *id,
+                replication: self.verif_replication[id],
+                only_one: info.is_only_one_strategy,
+                replicas,
+            });
+        }
+        blocks.sort_by_key(|b| b.id);
+        let mut edges = vec![];
+        for (from, next) in self.next_blocks.iter() {
+            for (to, _typ, fragile) in next {
+                edges.push((*from, *to, *fragile));
+            }
+        }
+        edges.sort();
+        crate::verif::GraphDump {
+            blocks,
+            edges,
+            links: self.network.verif_links(),
+            ports: self.network.verif_ports(),
         }
     }
 }
